@@ -30,8 +30,10 @@ LEVEL_TEXT = (
     "sizes of blocks), L2,1 with l2_axis=None is the sum of block norms; indicators take values in {0, +inf} and are 0 "
     "exactly on their set; the two Huber branches agree at delta; c*f, f*c, f/c, f+g, SeparableFunctional, Loss evaluate "
     "to the arithmetic combination for every nesting; the code-shaped finite difference (append a copy, then diff) is the "
-    "documented matrix for append=0 and circular; metric identities (mse>=0 and =0 iff equal, psnr/snr/isnr relations, "
-    "rel_res definition with its zero-denominator case, rel_res<=2). Tie: every functional/loss/metric x parameter grid x "
+    "documented matrix for append=0 and circular, lifted to every axis of an N-d array (fibre by fibre), and the TV norms are "
+    "the documented sums over those differences; L2,1 over the leading axis of a stack; metric identities (mse>=0, "
+    "psnr/snr/isnr relations, rel_res definition with its zero-denominator case); losses: non-negativity, zero sets, block = "
+    "concatenation, Poisson minimum. Tie: every functional/loss/metric x parameter grid x "
     "real/complex x plain/block compared with the model on dyadic data incl. zeros, ties at delta / radius, on-set and "
     "off-set points."
 )
@@ -94,6 +96,8 @@ def _check(ctx, op, case, impl, mod, formula, k=64):
     def oracle(_case):
         if impl[0] == "ok" and formula is not None and not common.close(impl[1], formula, k=k, rtol=1e-8):
             return {"what": "value differs from the documented formula", "impl": impl[1], "formula": formula}
+        if impl[0] == "err" and mod[0] == "ok" and formula is not None:
+            return {"what": "evaluation raises where the documented formula has a value", "impl_error_kind": impl[1], "formula": formula}
         return None
 
     if not _agree(impl, mod, k):
@@ -217,6 +221,150 @@ def run_l21_axes(ctx, model, scico):
         ctx.case({"l21": list(shape), "axes": list(axes), "cplx": cplx}, ("l21", shape, axes, cplx) if np.any(a != 0) else None)
         ctx.count(f"l21axes:rank{rank}:{len(axes)}axes")
         _check(ctx, "feval.l21axes", case, impl, mod, formula)
+
+
+HOMOG = {"l1": 1, "l2": 1, "l21none": 1, "l1ml2": 1, "sql2": 2}
+
+
+def run_tiny(ctx, model, scico):
+    """positively homogeneous functionals on data of magnitude 2^-40 (exact scaling by a power of two): f(s x) / s^d must
+    equal the model's f(x).  The absolute part of the tolerance rule is meaningless at that magnitude, so the value is
+    rescaled (exactly) before it is compared.  Guards against absolute thresholds creeping into the formulas."""
+    import scico.functional as F
+    import scico.numpy as snp
+
+    rng = ctx.rng
+    sc = 2.0 ** -40
+    for _ in range(ctx.n(40, 400)):
+        cplx = bool(rng.random() < 0.4)
+        which = int(rng.integers(3))
+        if which == 0:
+            kind = list(HOMOG)[int(rng.integers(len(HOMOG)))]
+            block = bool(rng.random() < 0.35) and kind != "l1ml2"
+            leaf = {"kind": kind} if kind != "l1ml2" else {"kind": kind, "beta": f2b(float(rng.integers(0, 5)) / 4)}
+            shape = G.random_shape(rng, block)
+            shapes = shape if block else [shape]
+            arrs = [G.dy(rng, s_, cplx) for s_ in shapes]
+            x = snp.blockarray([snp.array(a * sc) for a in arrs]) if block else snp.array(arrs[0] * sc)
+            deg = HOMOG[kind]
+            impl = _impl(lambda: float(G.build_leaf(F, leaf)(x)) / sc**deg)
+            req = {"fn": kind, "cplx": cplx, "x": G.arg_json(snp.blockarray([snp.array(a) for a in arrs]) if block else snp.array(arrs[0]), cplx)}
+            if "beta" in leaf:
+                req["beta"] = leaf["beta"]
+            mod = _model(model, "feval", **req)
+            formula = G.np_leaf(leaf, arrs)
+            case = {"tiny": kind, "leaf": leaf, "cplx": cplx, "shape": [list(s_) for s_ in shapes], "block": block, "x": req["x"], "scale": "2^-40"}
+            ctx.case({k: case[k] for k in ("tiny", "cplx", "shape", "block")}, ("tiny", kind, cplx, block, len(shapes[0])))
+        elif which == 1:
+            rank = int(rng.integers(2, 4))
+            shape = tuple(int(rng.integers(1, 4)) for _ in range(rank))
+            subsets = [c for r_ in range(1, rank + 1) for c in itertools.combinations(range(rank), r_)]
+            axes = subsets[int(rng.integers(len(subsets)))]
+            a = G.dy(rng, shape, cplx)
+            impl = _impl(lambda: float(F.L21Norm(l2_axis=axes)(snp.array(a * sc))) / sc)
+            mod = _model(model, "feval", fn="l21axes", cplx=cplx, shape=list(shape), axes=list(axes), x=fs2b(G.il(a, cplx)))
+            formula = float(np.sum(np.sqrt(np.sum(np.abs(a) ** 2, axis=axes))))
+            case = {"tiny": "l21axes", "shape": list(shape), "axes": list(axes), "cplx": cplx, "x": fs2b(G.il(a, cplx)), "scale": "2^-40"}
+            ctx.case({k: case[k] for k in ("tiny", "cplx", "shape", "axes")}, ("tiny-l21", shape, axes, cplx))
+        else:
+            rank = int(rng.integers(1, 4))
+            shape = tuple(int(rng.integers(1, 5)) for _ in range(rank))
+            subsets = [c for r_ in range(1, rank + 1) for c in itertools.combinations(range(rank), r_)]
+            axes = subsets[int(rng.integers(len(subsets)))]
+            circ, iso = bool(rng.integers(2)), bool(rng.integers(2))
+            a = G.dy(rng, shape, cplx)
+            dt = np.complex128 if cplx else np.float64
+            cls = F.IsotropicTVNorm if iso else F.AnisotropicTVNorm
+            impl = _impl(lambda: float(cls(circular=circ, axes=axes, input_dtype=dt)(snp.array(a * sc))) / sc)
+            comps = [fs2b(a.real.ravel()), fs2b(a.imag.ravel())] if cplx else [fs2b(a.ravel())]
+            mod = _model(model, "feval", fn="tv", cplx=cplx, iso=iso, circular=circ, shape=list(shape), axes=list(axes), comps=comps)
+            ds = np.stack([_np_fd(a, ax, circ) for ax in axes])
+            formula = float(np.sum(np.sqrt(np.sum(np.abs(ds) ** 2, axis=0)))) if iso else float(np.sum(np.abs(ds)))
+            case = {"tiny": "tv", "iso": iso, "circular": circ, "shape": list(shape), "axes": list(axes), "cplx": cplx, "comps": comps, "scale": "2^-40"}
+            ctx.case({k: case[k] for k in ("tiny", "iso", "circular", "shape", "axes", "cplx")}, ("tiny-tv", iso, circ, shape, axes, cplx))
+        ctx.count("tiny:" + case["tiny"])
+        _check(ctx, "feval.tiny." + case["tiny"], case, impl, mod, formula, k=256)
+
+
+def run_l21_call(ctx, model, scico):
+    """`L21Norm.__call__` argument check: a block argument is accepted with l2_axis=None only (ValueError otherwise)"""
+    import scico.functional as F
+    import scico.numpy as snp
+
+    rng = ctx.rng
+    for _ in range(ctx.n(20, 150)):
+        cplx = bool(rng.random() < 0.3)
+        shape = G.random_shape(rng, True)
+        arrs = [G.dy(rng, s_, cplx) for s_ in shape]
+        x = snp.blockarray([snp.array(a) for a in arrs])
+        axis = None if rng.random() < 0.3 else (0 if rng.random() < 0.5 else (0,))
+        impl = _impl(lambda: float(F.L21Norm(l2_axis=axis)(x)))
+        mod = _model(model, "feval", fn="l21call", cplx=cplx, axes=None if axis is None else [0], shape=None, x=G.arg_json(x, cplx))
+        formula = float(sum(np.sqrt(np.sum(np.abs(a) ** 2)) for a in arrs)) if axis is None else None
+        case = {"l21call": "block", "axis": None if axis is None else 0, "cplx": cplx, "shape": [list(s_) for s_ in shape], "x": G.arg_json(x, cplx)}
+        ctx.case({k: case[k] for k in ("l21call", "axis", "cplx", "shape")}, ("l21call", axis is None, cplx, len(shape)))
+        ctx.count("l21call:block:" + ("l2_axis=None" if axis is None else "l2_axis given -> " + (impl[1] if impl[0] == "err" else "value")))
+
+        def oracle(_c, impl=impl, axis=axis):
+            if axis is not None and impl[0] == "ok":
+                return {"what": "L21Norm(l2_axis=0) accepted a BlockArray (documented: l2_axis must be None for block input)", "value": impl[1]}
+            return None
+
+        if not _agree(impl, mod):
+            ctx.disagree("feval.l21call", case, list(impl), list(mod), oracle=oracle)
+        elif formula is not None and impl[0] == "ok" and not common.close(impl[1], formula, k=64, rtol=1e-8):
+            ctx.disagree("feval.l21call.formula", case, list(impl), formula, oracle=lambda _c: {"impl": impl[1], "formula": formula})
+
+
+def run_nuclear(ctx, model, scico):
+    """NuclearNorm: sum of the singular values (computed independently with numpy), ValueError unless 2-D; exact cases:
+    diagonal matrices (sum |d_i|), rank-one matrices (|u| |v|), scaled orthogonal 2x2 (2 |c|)"""
+    import scico.functional as F
+    import scico.numpy as snp
+
+    rng = ctx.rng
+    f = F.NuclearNorm()
+    for _ in range(ctx.n(40, 400)):
+        cplx = bool(rng.random() < 0.3)
+        mode = ["random", "random", "diag", "rank1", "rot", "ndim"][int(rng.integers(6))]
+        m, n = int(rng.integers(1, 5)), int(rng.integers(1, 5))
+        exact = None
+        if mode == "random":
+            a = G.dy(rng, (m, n), cplx)
+        elif mode == "diag":
+            d = G.dy(rng, (min(m, n),), cplx)
+            a = np.zeros((m, n), dtype=d.dtype)
+            a[np.arange(min(m, n)), np.arange(min(m, n))] = d
+            exact = float(np.sum(np.abs(d)))
+        elif mode == "rank1":
+            u, w = G.dy(rng, (m,), cplx), G.dy(rng, (n,), cplx)
+            a = np.outer(u, w)
+            exact = float(np.linalg.norm(u) * np.linalg.norm(w))
+        elif mode == "rot":
+            c_ = float(rng.choice([0.5, 1.0, 2.0, -1.5]))
+            a = c_ * np.array([[3.0, -4.0], [4.0, 3.0]]) / 5.0
+            a = a.astype(np.complex128) if cplx else a
+            exact = 2 * abs(c_)
+        else:
+            sh = [(int(rng.integers(1, 5)),), (2, 2, 2), (1, 2, 1)][int(rng.integers(3))]
+            a = G.dy(rng, sh, cplx)
+        sv = np.linalg.svd(a, compute_uv=False) if a.ndim == 2 else np.zeros(0)
+        impl = _impl(lambda: float(f(snp.array(a))))
+        mod = _model(model, "feval", fn="nuclear", cplx=cplx, ndim=a.ndim, sv=fs2b(sv))
+        formula = float(np.sum(sv)) if a.ndim == 2 else None
+        case = {"nuclear": mode, "cplx": cplx, "shape": list(a.shape), "x": fs2b(G.il(a, cplx))}
+        ctx.case({k: case[k] for k in ("nuclear", "cplx", "shape")}, ("nuclear", mode, cplx, a.shape) if np.any(a != 0) else None)
+        ctx.count("nuclear:" + mode)
+        _check(ctx, "feval.nuclear", case, impl, mod, formula, k=64)
+        if exact is not None and impl[0] == "ok" and not common.close(impl[1], exact, k=64, rtol=1e-8):
+            ctx.disagree("feval.nuclear.exact", case, list(impl), exact,
+                         oracle=lambda _c, impl=impl, exact=exact: {"what": "nuclear norm of a matrix with known singular values", "impl": impl[1], "exact": exact})
+        if impl[0] == "ok" and a.ndim == 2:
+            # ||X||_F <= ||X||_* <= sqrt(rank) ||X||_F  (theorem C09_nuclear_bounds on the singular values)
+            fro = float(np.sqrt(np.sum(np.abs(a) ** 2)))
+            if not (fro <= impl[1] * (1 + 1e-9) + 1e-12 and impl[1] <= np.sqrt(min(a.shape)) * fro * (1 + 1e-9) + 1e-12):
+                ctx.disagree("feval.nuclear.bounds", case, impl[1], [fro, float(np.sqrt(min(a.shape)) * fro)],
+                             oracle=lambda _c, v_=impl[1], fro=fro: {"what": "nuclear norm outside [||X||_F, sqrt(min(m,n)) ||X||_F]", "value": v_, "fro": fro})
 
 
 def run_dist(ctx, model, scico):
@@ -450,6 +598,65 @@ def run_losses(ctx, model, scico):
         _check(ctx, "feval." + cls, dict(case, x=fs2b(G.il(x, cplx)), y=fs2b(G.il(y, cplx))), impl, mod, formula)
 
 
+def run_losses_block(ctx, model, scico):
+    """the four losses on block arrays (default Identity forward operator, block weights): the value is the documented
+    formula on the concatenation of the blocks"""
+    import scico.numpy as snp
+    from scico import linop, loss
+    from scipy.special import gammaln
+
+    rng = ctx.rng
+    for _ in range(ctx.n(40, 400)):
+        cls = ["sql2", "sql2abs", "sql2sqabs", "poisson"][int(rng.integers(4))]
+        cplx = bool(rng.random() < 0.4) and cls != "poisson"
+        shape = G.random_shape(rng, True)
+        xs = [G.dy(rng, s_, cplx) for s_ in shape]
+        if cls == "poisson":
+            xs = [np.abs(G.dy(rng, s_, False)) + 0.25 for s_ in shape]
+            ys = [rng.integers(0, 6, size=s_).astype(np.float64) for s_ in shape]
+        elif cls == "sql2":
+            ys = [G.dy(rng, s_, cplx) for s_ in shape]
+        else:
+            ys = [np.abs(common.dyadic(rng, s_, bits=2, scale=3.0)) for s_ in shape]
+        ws = None if rng.random() < 0.4 or cls == "poisson" else [rng.integers(0, 5, size=s_).astype(np.float64) / 2 for s_ in shape]
+        W = None if ws is None else linop.Diagonal(snp.blockarray([snp.array(w) for w in ws]), input_dtype=np.float64)
+        sc = G.pos_dyadic(rng)
+        yj = snp.blockarray([snp.array(y) for y in ys])
+        xj = snp.blockarray([snp.array(x) for x in xs])
+        if cls == "sql2":
+            L = loss.SquaredL2Loss(y=yj, scale=sc, W=W)
+        elif cls == "sql2abs":
+            L = loss.SquaredL2AbsLoss(y=yj, scale=sc, W=W)
+        elif cls == "sql2sqabs":
+            L = loss.SquaredL2SquaredAbsLoss(y=yj, scale=sc, W=W)
+        else:
+            L = loss.PoissonLoss(y=yj, scale=sc)
+        impl = _impl(lambda: float(L(xj)))
+        fx = np.concatenate([x.ravel() for x in xs])
+        fy = np.concatenate([y.ravel() for y in ys])
+        fw = None if ws is None else np.concatenate([w.ravel() for w in ws])
+        wj = None if fw is None else fs2b(fw)
+        ww = 1.0 if fw is None else fw
+        if cls == "sql2":
+            mod = _model(model, "feval", fn="sql2loss", cplx=cplx, scale=f2b(sc), w=wj, y=fs2b(G.il(fy, cplx)), ax=fs2b(G.il(fx, cplx)))
+            formula = float(sc * np.sum(ww * np.abs(fy - fx) ** 2))
+        elif cls == "sql2abs":
+            mod = _model(model, "feval", fn="sql2absloss", cplx=cplx, scale=f2b(sc), w=wj, y=fs2b(fy), ax=fs2b(G.il(fx, cplx)))
+            formula = float(sc * np.sum(ww * (fy - np.abs(fx)) ** 2))
+        elif cls == "sql2sqabs":
+            mod = _model(model, "feval", fn="sql2sqabsloss", cplx=cplx, scale=f2b(sc), w=wj, y=fs2b(fy), ax=fs2b(G.il(fx, cplx)))
+            formula = float(sc * np.sum(ww * (fy - np.abs(fx) ** 2) ** 2))
+        else:
+            const = gammaln(fy + 1.0)
+            mod = _model(model, "feval", fn="poisson", cplx=False, scale=f2b(sc), y=fs2b(fy), ax=fs2b(fx), const=fs2b(const))
+            formula = float(sc * np.sum(fx - fy * np.log(fx) + const))
+        case = {"loss": cls, "A": "ident", "block": [list(s_) for s_ in shape], "cplx": cplx, "weights": ws is not None,
+                "x": fs2b(G.il(fx, cplx)), "y": fs2b(G.il(fy, cplx))}
+        ctx.case({k: case[k] for k in ("loss", "block", "cplx", "weights")}, ("loss-block", cls, cplx, ws is not None, len(shape)))
+        ctx.count(f"loss:{cls}:block:{'complex' if cplx else 'real'}")
+        _check(ctx, "feval.block." + cls, case, impl, mod, formula)
+
+
 # --------------------------------------------------------------------------
 # wrappers
 
@@ -557,6 +764,34 @@ def run_metrics(ctx, model, scico):
         if impl[0] == "ok" and not np.isfinite(impl[1]):
             ctx.count("metric:non-finite value (" + ("nan" if np.isnan(impl[1]) else ("+inf" if impl[1] > 0 else "-inf")) + ")")
         _check(ctx, "metric." + name, case, impl, mod, formula)
+    # every metric on block arrays: the documented formula on the concatenation of the blocks.  On the current tree all
+    # but rel_res raise TypeError (snp.mean / var / max / min are not block reductions): known finding `metric-blockarray`
+    for _ in range(ctx.n(35, 350)):
+        name = names[int(rng.integers(len(names)))]
+        if name == "rel_res":
+            continue
+        cplx = bool(rng.random() < 0.3) and name != "psnr"
+        shape = G.random_shape(rng, True)
+        ab, bb, cb = ([G.dy(rng, s_, cplx) for s_ in shape] for _ in range(3))
+        blk = lambda zs: snp.blockarray([snp.array(z) for z in zs])  # noqa: E731
+        fl = lambda zs: np.concatenate([z.ravel() for z in zs])  # noqa: E731
+        fn = getattr(metric, name)
+        if name == "isnr":
+            impl = _impl(lambda: float(fn(blk(ab), blk(bb), blk(cb))))
+        else:
+            impl = _impl(lambda: float(fn(blk(ab), blk(bb))))
+        mkw = {"c": fs2b(G.il(fl(cb), cplx))} if name == "isnr" else {}
+        mod = _model(model, "metric", name=name, cplx=cplx, a=fs2b(G.il(fl(ab), cplx)), b=fs2b(G.il(fl(bb), cplx)), **mkw)
+        formula = _np_metric(name, fl(ab), fl(bb), fl(cb), None)
+        case = {"metric": name, "block": [list(s_) for s_ in shape], "cplx": cplx, "a": fs2b(G.il(fl(ab), cplx)),
+                "b": fs2b(G.il(fl(bb), cplx)), "c": fs2b(G.il(fl(cb), cplx))}
+        ctx.case({k: case[k] for k in ("metric", "block", "cplx")}, ("metric-block", name, cplx, len(shape)))
+        ctx.count(f"metric:{name}:block:" + ("value" if impl[0] == "ok" else "err-" + impl[1]))
+        if impl == ("err", "type"):
+            ctx.disagree("metric.block." + name, case, list(impl), list(mod), known_id="metric-blockarray",
+                         oracle=lambda _c, name=name: {"what": f"metric.{name} raises TypeError on BlockArray arguments (annotated Union[Array, BlockArray])"})
+        else:
+            _check(ctx, "metric.block." + name, case, impl, mod, formula)
     # rel_res on block arrays (the only metric whose reductions are block-aware)
     for _ in range(ctx.n(15, 150)):
         shape = G.random_shape(rng, True)
@@ -605,16 +840,28 @@ def correspond(ctx, model):
     _corpus(ctx, model, scico)
     run_base(ctx, model, scico)
     run_l21_axes(ctx, model, scico)
+    run_l21_call(ctx, model, scico)
+    run_tiny(ctx, model, scico)
+    run_nuclear(ctx, model, scico)
     run_dist(ctx, model, scico)
     run_tv(ctx, model, scico)
     run_proxavg(ctx, model, scico)
     run_losses(ctx, model, scico)
+    run_losses_block(ctx, model, scico)
     run_trees(ctx, model, scico)
     run_metrics(ctx, model, scico)
 
 
 def findings(ctx, model):
-    pass
+    """known finding `metric-blockarray`: metric.mse(BlockArray, BlockArray) raises TypeError (still fails = True)"""
+    scico = common.setup_scico()
+    import scico.numpy as snp
+    from scico import metric
+
+    a = snp.blockarray([snp.array(np.array([1.0, 2.0])), snp.array(np.array([[3.0]]))])
+    b = snp.blockarray([snp.array(np.array([1.5, 2.0])), snp.array(np.array([[2.0]]))])
+    r = _impl(lambda: float(metric.mse(a, b)))
+    ctx.known_finding("metric-blockarray", r == ("err", "type"))
 
 
 def replay(ctx, model, case):
